@@ -161,7 +161,7 @@ def benign(ast):
 # ----------------------------------------------------------------------------------------
 MACRO_RE = re.compile(r"\.(TH [^\n]*|S[HS]( [^\n]*)?|PP|IP( \\\(bu [0-9]+)?|RS|RE|EX|EE)\Z")
 ESCAPES = {"e": "\\", "-": "-", "'": "´", "&": ""}
-NAMED = {"aq": "'", "ga": "`", "bu": "•"}
+NAMED = {"aq": "'", "ga": "`", "bu": "•", "dq": "\""}   # dq: how a double quote is written inside a macro argument
 BARE_SPECIAL = "-'´`"
 
 
@@ -549,6 +549,11 @@ class C19(core.PropertyCheck):
         for l in control_lines(out):
             if not MACRO_RE.match(l):
                 return f"control-line-not-macro: {l!r}"
+        # (a') ... and a macro argument holds its text as text: a bare double quote there is troff's argument quoting (the quote
+        #      characters are not output, an unbalanced one swallows the rest of the line as one argument), not a character
+        for l in control_lines(out):
+            if l.split(" ")[0] in (".SH", ".SS", ".TH") and '"' in l:
+                return f"macro-argument-quote: document text reaches the argument of {l.split(' ')[0]} with a bare double quote: {l!r}"
         # (b) ... and is not produced by document text: the same tree with letters-only strings
         #     (where text cannot start a line with a control character) has the same macro sequence
         if impl["benign_exc"] is not None:
